@@ -105,7 +105,20 @@ def _parse(res: TLCResult) -> None:
         res.violated += re.findall(r"Error: Action property (\S+)", out)
     if "Error: Deadlock reached" in out:
         res.deadlock = True
+    pending: list[str] = []
     for line in out.splitlines():
+        if pending:
+            # TLC's pretty printer wraps long tuples over several lines:
+            # join them again (brackets balanced) and undo the padding
+            pending.append(line.strip())
+            joined = " ".join(pending)
+            if joined.count("<<") <= joined.count(">>"):
+                res.printed.append(joined.replace("<< ", "<<").replace(" >>", ">>"))
+                pending = []
+            continue
+        if line.startswith("<<") and line.count("<<") > line.count(">>"):
+            pending = [line.strip()]
+            continue
         if line.startswith("<<") or line.startswith('"'):
             res.printed.append(line)
     for m in _RE_COV.finditer(out):
